@@ -8,7 +8,7 @@ import collections
 
 CONT, TERM = 0, 1
 
-EXC_OF_END = {'RAISE_A': 'ExcA', 'RAISE_B': 'ExcB', 'RAISE_O': 'ExcO', 'INVALID': 'InvalidPhaseResultError',
+EXC_OF_END = {'RAISE_A': 'ExcA', 'RAISE_A2': 'ExcA2', 'RAISE_B': 'ExcB', 'RAISE_O': 'ExcO', 'INVALID': 'InvalidPhaseResultError',
               'INVALID_FALSE': 'InvalidPhaseResultError', 'INVALID_ZERO': 'InvalidPhaseResultError',
               'INVALID_EMPTY': 'InvalidPhaseResultError'}
 TERMINAL_KINDS = ('STOP', 'TIMEOUT')
@@ -91,8 +91,8 @@ class Model(object):
     ft = x.first_terminal
     if ft is not None:
       if ft[0] == 'EXC':
-        fe = {'A': 'ExcA', 'B': 'ExcB'}
-        return {'FAIL'} if ft[1] in [fe[k] for k in self.opts.get('fexc', [])] else {'ERROR'}
+        fe = {'A': ('ExcA', 'ExcA2'), 'B': ('ExcB',)}   # ExcA2 is a subclass of ExcA
+        return {'FAIL'} if any(ft[1] in fe[k] for k in self.opts.get('fexc', [])) else {'ERROR'}
       if ft[0] == 'TIMEOUT':
         return {'TIMEOUT'}
       return {'FAIL'}
